@@ -690,6 +690,20 @@ int gd_uninclude(DIRFILE* D, int fragment_index, int del)
     for (j = 0; j < nf; ++j)
       gd_UnlinkAt(D, D->fragment[f[j]].dirfd, D->fragment[f[j]].bname, 0);
 
+  /* the reference field must not be left pointing into a removed fragment */
+  if (D->reference_field != NULL &&
+      _GD_ContainsFragment(f, nf, D->reference_field->fragment_index))
+  {
+    D->reference_field = NULL;
+    for (i = 0; i < D->n_entries; ++i)
+      if (D->entry[i]->field_type == GD_RAW_ENTRY &&
+          !_GD_ContainsFragment(f, nf, D->entry[i]->fragment_index))
+      {
+        D->reference_field = D->entry[i];
+        break;
+      }
+  }
+
   /* delete fields from the fragment -- memory use is not sufficient to warrant
    * resizing D->entry */
   old_count = D->n_entries;
